@@ -10,6 +10,7 @@ import (
 	"time"
 
 	"github.com/spf13/viper"
+	"github.com/usnistgov/dastard/packets"
 )
 
 // VerifRecord mirrors DataRecord with exported fields.
@@ -296,4 +297,16 @@ func VerifStartSocket(port int, summaries bool) (send func(recs []VerifRecord), 
 	}
 	stop = func() { close(ch) }
 	return send, stop, nil
+}
+
+// VerifGroupDemux appends the packets to the group's queue and runs the real demuxData for the given
+// number of frames, as the reader loop does: one fresh slice per channel of the group.
+func VerifGroupDemux(g *AbacoGroup, pkts []*packets.Packet, frames int) [][]RawType {
+	g.queue = append(g.queue, pkts...)
+	datacopies := make([][]RawType, g.nchan)
+	for i := range datacopies {
+		datacopies[i] = make([]RawType, frames)
+	}
+	g.demuxData(datacopies, frames)
+	return datacopies
 }
